@@ -85,6 +85,7 @@ static void life_event(int hid, int ev)
 }
 /* ---- C08 oracle: at most one STARTED connection per redundancy group; open connections within the limit ---- */
 static int group_fail = 0; static char group_info[400];
+static char grp_name[8][16]; static char grp_ips[8][256]; static int n_grp = 0; static uint8_t grp_checked[4096];
 /* ---- C06 oracle (single-group mode): events leave in enqueue order on a connection, none twice on one connection ---- */
 static int queue_fail = 0; static char queue_info[500];
 static uint8_t evq_b[8192][64]; static int evq_n[8192]; static int evq_cnt = 0; static int last_ev_idx[4096];
@@ -177,6 +178,7 @@ static void op_new(int mode, int k, int w, int t0, int t1, int t2, int t3, int m
     mem_forget_all();
     sim_reset(); n_hid = 0; n_answers = answers_pos = 0; evq_cnt = 0;
     fprintf(ops, "s.new %d %d %d %d %d %d %d %d %d %d %d %d %d\n", mode, k, w, t0, t1, t2, t3, maxopen, lowq, highq, rep, scot, sca); fflush(ops);
+    n_grp = 0; memset(grp_checked, 0, sizeof grp_checked);
     slave = CS104_Slave_create(lowq, highq); cur_mode = mode; cfg_t1s = t1; memset(tf_sent_at, 0, sizeof tf_sent_at);
     CS104_Slave_setServerMode(slave, (CS104_ServerMode) mode);
     CS104_APCIParameters ap = CS104_Slave_getConnectionParameters(slave);
@@ -190,8 +192,25 @@ static void op_new(int mode, int k, int w, int t0, int t1, int t2, int t3, int m
     sim_set_time(1000000);
     fprintf(impl, "ok\n");
 }
+/* the harness' own record of the configured groups, for the model-free attachment oracle (C08) */
+static const char* expected_group(const char* peer)    /* first group that lists the address, else the last catch-all, else NULL */
+{
+    char ip[80]; if (peer[0] == '[') { snprintf(ip, sizeof ip, "%s", peer + 1); char* e = strchr(ip, ']'); if (e) *e = 0; } else { snprintf(ip, sizeof ip, "%s", peer); char* e = strchr(ip, ':'); if (e) *e = 0; }
+    for (int g = 0; g < n_grp; g++) { char tmp[256]; snprintf(tmp, sizeof tmp, "%s", grp_ips[g]); for (char* t = strtok(tmp, ","); t; t = strtok(NULL, ",")) if (!strcmp(t, ip)) return grp_name[g]; }
+    const char* ca = NULL; for (int g = 0; g < n_grp; g++) if (!strcmp(grp_ips[g], "-")) ca = grp_name[g];
+    return ca;
+}
+static void check_groups(void)
+{
+    if (!slave || slave->serverMode != CS104_MODE_MULTIPLE_REDUNDANCY_GROUPS || n_grp == 0) return;
+    for (int i = 0; i < CONFIG_CS104_MAX_CLIENT_CONNECTIONS; i++) { MasterConnection c = slave->masterConnections[i]; if (!c || !c->isUsed || !c->socket) continue;
+        int h = hid_of_sock[((SimSocket*) c->socket)->id]; if (h < 0 || h >= 4096 || grp_checked[h]) continue; grp_checked[h] = 1;
+        const char* want = expected_group(((SimSocket*) c->socket)->peer); const char* got = c->redundancyGroup ? c->redundancyGroup->name : NULL;
+        if ((want == NULL) != (got == NULL) || (want && got && strcmp(want, got))) { if (!group_fail) snprintf(group_info, sizeof group_info, "connection h%d from %s at ops-file offset %ld is attached to group `%s`; the first group that lists its address, else the catch-all, is `%s`", h, ((SimSocket*) c->socket)->peer, (long) ftell(ops), got ? got : "(none)", want ? want : "(none: not to be admitted)"); group_fail++; } }
+}
 static void op_group(const char* name, const char* ips)
 {
+    if (n_grp < 8) { snprintf(grp_name[n_grp], sizeof grp_name[0], "%s", name); snprintf(grp_ips[n_grp], sizeof grp_ips[0], "%s", ips); n_grp++; }
     fprintf(ops, "s.group %s %s\n", name, ips); fflush(ops);
     CS104_RedundancyGroup g = CS104_RedundancyGroup_create(name);
     if (strcmp(ips, "-")) { char tmp[512]; strcpy(tmp, ips); for (char* t = strtok(tmp, ","); t; t = strtok(NULL, ",")) CS104_RedundancyGroup_addAllowedClient(g, t); }
@@ -221,6 +240,7 @@ static void op_wfail(int h, int v) { fprintf(ops, "s.wfail %d %d\n", h, v); fflu
 static void op_answers(const int* a, int n) { fprintf(ops, "s.answers"); for (int i = 0; i < n; i++) fprintf(ops, " %d", a[i]); fprintf(ops, "\n"); fflush(ops); memcpy(answers, a, n * sizeof(int)); n_answers = n; answers_pos = 0; fprintf(impl, "ok\n"); }
 static MasterConnection conn_of_hid(int h);
 static void op_tick(int dt) { n_ops++; fprintf(ops, "s.tick %d\n", dt); fflush(ops); sim_advance(dt); sim_hal_calls = 0; CS104_Slave_tick(slave);
+    check_groups();
     for (int q = 0; q < n_hid && q < 4096; q++) if (tf_sent_at[q]) { MasterConnection c = conn_of_hid(q);
         if (!c || !c->isRunning) tf_sent_at[q] = 0;
         else if (cfg_t1s && sim_time() > tf_sent_at[q] + (uint64_t) cfg_t1s * 1000 && !t1_fail++)
@@ -234,7 +254,14 @@ static void op_enq(const uint8_t* b, int n)
     CS101_ASDU a = CS101_ASDU_create(al, false, CS101_COT_SPONTANEOUS, 0, 1, false, false);
     memcpy(a->asdu, b, hdr); CS101_ASDU_addPayload(a, (uint8_t*) b + hdr, n - hdr);
     if (n <= 250) evq_push(b, n);
+    /* C08 oracle: every group (every open connection in connection-is-group mode) sees every enqueued event */
+    MessageQueue qs[128]; uint64_t ids[128]; int nq = 0;
+    if (slave->serverMode == CS104_MODE_SINGLE_REDUNDANCY_GROUP) { if (slave->asduQueue) qs[nq++] = slave->asduQueue; }
+    else if (slave->serverMode == CS104_MODE_MULTIPLE_REDUNDANCY_GROUPS) { for (LinkedList e = slave->redundancyGroups ? LinkedList_getNext(slave->redundancyGroups) : NULL; e && nq < 128; e = LinkedList_getNext(e)) { CS104_RedundancyGroup g = (CS104_RedundancyGroup) LinkedList_getData(e); if (g->asduQueue) qs[nq++] = g->asduQueue; } }
+    else for (int i = 0; i < CONFIG_CS104_MAX_CLIENT_CONNECTIONS && nq < 128; i++) { MasterConnection c = slave->masterConnections[i]; if (c && c->isUsed && c->lowPrioQueue) qs[nq++] = c->lowPrioQueue; }
+    for (int i = 0; i < nq; i++) ids[i] = qs[i]->entryId;
     CS104_Slave_enqueueASDU(slave, a); CS101_ASDU_destroy(a);
+    if (n - hdr >= 0 && n <= 250) for (int i = 0; i < nq; i++) if (qs[i]->entryId != ids[i] + 1) { if (!group_fail) snprintf(group_info, sizeof group_info, "at ops-file offset %ld: the enqueued event was not copied into queue %d of %d (%s)", (long) ftell(ops), i, nq, slave->serverMode == CS104_MODE_CONNECTION_IS_REDUNDANCY_GROUP ? "one queue per open connection" : "one queue per redundancy group"); group_fail++; }
     flush_obs();
 }
 static MasterConnection conn_of_hid(int h) { for (int i = 0; i < CONFIG_CS104_MAX_CLIENT_CONNECTIONS; i++) { MasterConnection c = slave->masterConnections[i]; if (c && c->isUsed && c->socket == (Socket) sock_of_hid[h]) return c; } return NULL; }
